@@ -265,6 +265,10 @@ func (rn *runner) run(kind int, counter uint64, ops []hx.Group) []byte {
 	var obs []hx.Group
 	var lastEnc []byte
 	failed := false
+	// the bytes of the packet the message was decoded from, while no setter has touched it since: such a message
+	// re-encodes to exactly those bytes (C03); what a decoder accepts beyond the well-formed packets (an identifier 0,
+	// unused bytes inside a CONNECT) is then reproduced, not "corrected"
+	var pristine []byte
 	for _, op := range ops {
 		if failed {
 			break // a message whose Decode failed is in no defined state: the script ends here
@@ -298,7 +302,11 @@ func (rn *runner) run(kind int, counter uint64, ops []hx.Group) []byte {
 				}
 				// (a message decoded from a non-minimal remaining-length encoding legitimately keeps it:
 				//  the fixed header is compared in canonical form, the body byte for byte)
-				if ref, ok := refWire(m); ok && !bytes.Equal(ref, canonHeader(r.bytes)) {
+				if pristine != nil {
+					if !bytes.Equal(r.bytes, pristine) {
+						rn.out.Oracle(caseNo, "re-encoding the decoded message gives %x, the packet was %x", r.bytes, pristine)
+					}
+				} else if ref, ok := refWire(m); ok && !bytes.Equal(ref, canonHeader(r.bytes)) {
 					rn.out.Oracle(caseNo, "Encode bytes %x differ from the reference wire encoding %x of the message's fields", r.bytes, ref)
 				}
 				// oracle: decoding the bytes yields equal fields
@@ -311,7 +319,7 @@ func (rn *runner) run(kind int, counter uint64, ops []hx.Group) []byte {
 						rn.out.Oracle(caseNo, "decode(encode(m)) has different fields: %v vs %v", f1, f2)
 					}
 				}
-				if pid := packetIDOnWire(kind, r.bytes); pid == 0 {
+				if pid := packetIDOnWire(kind, r.bytes); pid == 0 && pristine == nil {
 					rn.out.Oracle(caseNo, "encoded packet %x carries packet identifier 0", r.bytes)
 				}
 			} else if r.panic {
@@ -337,6 +345,7 @@ func (rn *runner) run(kind int, counter uint64, ops []hx.Group) []byte {
 				if !pok || plen > len(src) {
 					rn.out.Oracle(caseNo, "Decode accepted %x which has no complete fixed header / packet", src)
 				} else {
+					pristine = append([]byte{}, src[:plen]...)
 					for _, f := range fieldSlices(m) {
 						if !inside(f, src, plen) {
 							rn.out.Oracle(caseNo, "a decoded field lies outside the %d bytes of the packet in %x", plen, src)
@@ -371,8 +380,10 @@ func (rn *runner) run(kind int, counter uint64, ops []hx.Group) []byte {
 			type pidSetter interface{ SetPacketID(uint16) }
 			m.(pidSetter).SetPacketID(uint16(op[1]))
 			obs = append(obs, hx.G(0))
+			pristine = nil
 		default:
 			obs = append(obs, applySetter(m, op))
+			pristine = nil
 		}
 	}
 	obs = append(obs, hx.G(50, int64(message.VerifPacketIDCounter())))
